@@ -223,6 +223,9 @@ class Ref:
         return ('unspec', set(tl))
 
     def m_root(self, e):
+        p = e.parent
+        if p is not None and p.kind == 'el' and self.is_html and self.nm(p.name) == 'iframe':
+            return None                       # the document element of an embedded document: C17's business
         kind, x = self._root_state
         if kind == 'single':
             return e is x
